@@ -53,6 +53,7 @@ def _ext():
         "Count": lambda e: fn.Count("*"),
         "AnalyticFunction": lambda e: an.Rank().over(e.src["T1"].b),
         "WindowFrame": lambda e: an.Sum(e.src["T1"].b).over(e.src["T1"].c).rows(an.Preceding(1)),
+        "Subquery": lambda e: e.Q.from_(e.src["T2"]).select(fn.Max(e.src["T2"].a)),
         "Cast": lambda e: fn.Cast(e.src["T1"].b, "INT"),
         "Extract": lambda e: fn.Extract(DatePart.year, e.src["T1"].b),
         "Mod": lambda e: e.src["T1"].b % 2,
